@@ -38,7 +38,7 @@ def params(tier):
     if tier == 'quick':
         return {'examples': 1500, 'wall': 170, 'case_timeout': 20, 'max_steps': 8}
 
-    return {'examples': 30000, 'wall': 1500, 'case_timeout': 30, 'max_steps': 20}
+    return {'examples': 30000, 'wall': 600, 'case_timeout': 30, 'max_steps': 20}
 
 
 def floors(tier):
